@@ -20,7 +20,7 @@ from checks.c08_expgrad import gen_dataset, make_moment, index_key, derive_rows,
 PROPERTY = "C09"
 
 TIERS = {
-    "quick": {"runs": 800, "wall_cap_s": 75, "det_seeds": 16},
+    "quick": {"runs": 1100, "wall_cap_s": 75, "det_seeds": 16},
     "thorough": {"runs": 40000, "wall_cap_s": 800, "det_seeds": 128, "det_extra_workers": 4},
 }
 
